@@ -282,13 +282,7 @@ def writer_fn(z, prog):
             if e[0] == 0:
                 txn.replace(pC11.key_name(e[1]), pC11.key_rdataset(e[1], e[2]))
             else:
-                k = e[1]
-                if k == 0:
-                    txn.delete(dns.name.empty, "SOA")
-                elif k == 1:
-                    txn.delete(dns.name.empty, "TXT")
-                else:
-                    txn.delete(pC11.key_name(k))
+                pC11.delete_key(txn, e[1])
         w.phase = "ending"
         if commit:
             txn.commit()
